@@ -101,6 +101,12 @@ EXTRA_CASES = [
          src="package a\n\nfunc f() {\n\tfoo(1, ctx, 2)\n\tfoo(ctx)\n\tfoo(a, b)\n\tfoo(a, b, ctx)\n}\n"),
     dict(name="extra/two-elisions-one-line-ctx", patch="@@\n@@\n-foo(...)\n+foo2(...)\n bar(..., ctx, ...)\n",
          src="package a\n\nfunc f() {\n\tfoo(1, 2)\n\tbar(3, ctx, 4, 5)\n}\n\nfunc g() {\n\tfoo()\n\tbar(ctx)\n}\n"),
+    # two changes whose '-' sides are the same text (they differ in the kind of the metavariable), no blank line
+    # between them, an elision on the shared side
+    dict(name="extra/same-side-twice", patch="@@\nvar a identifier\n@@\n prepare()\n ...\n-check(a)\n+verify(a)\n@@\nvar a expression\n@@\n prepare()\n ...\n-check(a)\n+verify(a)\n",
+         src="package a\n\nfunc f() {\n\tprepare()\n\tmid(1)\n\tcheck(w)\n\tmid(2)\n\tcheck(3 + 4)\n}\n\nfunc g() {\n\tprepare()\n\tcheck(5 * 6)\n}\n"),
+    dict(name="extra/same-plus-side-twice", patch="@@\nvar a identifier\n@@\n-old1(a, ...)\n+renamed(a, ...)\n@@\nvar a identifier\n@@\n-old2(a, ...)\n+renamed(a, ...)\n",
+         src="package a\n\nfunc f() {\n\told1(p, 1, 2)\n\told2(q, 3)\n\told2(r)\n}\n"),
     dict(name="extra/decrement-stmt", patch="@@\nvar i identifier\n@@\n i--\n-work(i)\n+work2(i)\n i++\n",
          src="package a\n\nfunc f(n int) {\n\tn--\n\twork(n)\n\tn++\n}\n"),
 ]
